@@ -143,7 +143,14 @@ func (x *tr) actCall(e *ast.CallExpr) (val, bool) {
 		if i >= len(e.Args) {
 			fail("action %s: argument %d missing", src(x.p.fset, e), i)
 		}
-		v := x.expr(e.Args[i])
+		var v val
+		_, hinted := x.t.Hints[src(x.p.fset, e.Args[i])]
+		if id, ok := unparen(e.Args[i]).(*ast.Ident); ok && !hinted && strings.HasPrefix(x.vars[id.Name], "ptr:") {
+			// an opaque value (error, pointer) passed on: recorded by its identity
+			v = x.param(x.resolve(id.Name)+"_id", "iface")
+		} else {
+			v = x.expr(e.Args[i])
+		}
 		if v.coq != "" && !strings.HasPrefix(v.typ, "untyped") && !isConstTerm(v.coq) {
 			// bind the value at the call: the trace is printed at the return point, where the
 			// argument's variables may have been re-assigned
